@@ -89,7 +89,7 @@ class Session:
     """one symbolic execution of one harness function + its queries"""
 
     def __init__(self, name, harness, args=(), encode=("watchdog",), use_solver=True, expected_exceptions=(),
-                 setup=None, query_timeout_s=600, jobs=4, cross_check=False, native_ctx=None):
+                 setup=None, query_timeout_s=600, jobs=4, cross_check=False, native_ctx=None, steps=0, racy=()):
         self.name = name
         self.harness = harness
         self.args = tuple(args)
@@ -104,21 +104,35 @@ class Session:
         self.jobs = jobs
         self.cross_check = cross_check
         self.native_ctx = native_ctx
+        self.steps = steps
+        self.racy = racy
+        self.sched = None
         self.finals = []
         self.samples = []
         self.cross = {"agree": 0, "disagree": 0, "cvc5_unknown": 0}
+        self.combined_unsat = False
 
     # ----------------------------------------------------------------------------- build
     def build(self):
         vm = self.vm
         t0 = time.time()
         s0 = vm.new_state(self.harness, list(self.args))
-        self.finals = vm.run([s0])
+        if self.steps:
+            from .conc import Sched
+            vm.use_solver = False
+            vm.prune_branches = False
+            sch = Sched(vm, self.steps, racy=self.racy)
+            vm.sched = sch
+            self.finals = sch.run(s0)
+            self.sched = sch
+        else:
+            self.finals = vm.run([s0])
         self.build_s = time.time() - t0
         return self
 
     # ----------------------------------------------------------------------------- queries
     def _smt2(self, cond):
+        self.vm.flush_defs()
         sol = z3.Solver()
         for a in self.vm.solver.assertions():
             sol.add(a)
@@ -126,6 +140,7 @@ class Session:
         return sol.to_smt2()
 
     def _model(self, cond):
+        self.vm.flush_defs()
         sol = self.vm.solver
         sol.push()
         sol.set("timeout", int(self.query_timeout_s * 1000))
@@ -136,29 +151,76 @@ class Session:
         sol.set("timeout", 20000)
         return m
 
+    def _fork_check(self, cond, timeout_s):
+        """decide assumptions & cond in a forked child (shares the encoding copy-on-write: no export, no parse)"""
+        self.vm.flush_defs()
+        zc = to_z3(cond)
+        r, w = os.pipe()
+        pid = os.fork()
+        if pid == 0:
+            res = "unknown"
+            try:
+                os.close(r)
+                sol = self.vm.solver
+                sol.set("timeout", int(timeout_s * 1000))
+                sol.add(zc)
+                res = str(sol.check())
+            except BaseException:
+                res = "unknown"
+            try:
+                os.write(w, res.encode())
+            finally:
+                os._exit(0)
+        os.close(w)
+        return pid, r
+
     def solve_many(self, items):
-        """items: [(label, cond B)] -> {label: verdict}; sat verdicts get a model via the in-process solver"""
-        texts = [(label, self._smt2(cond)) for label, cond in items]
+        """items: [(label, cond B)] -> {label: verdict}"""
         verdicts = {}
+        pending = list(items)
+        running = {}  # pid -> (label, fd, t0)
+        jobs = max(1, self.jobs)
+        while pending or running:
+            while pending and len(running) < jobs:
+                label, cond = pending.pop(0)
+                pid, fd = self._fork_check(cond, self.query_timeout_s)
+                running[pid] = (label, fd, time.time())
+            pid, status = os.wait()
+            if pid not in running:
+                continue
+            label, fd, t0 = running.pop(pid)
+            try:
+                data = os.read(fd, 64).decode().strip()
+            finally:
+                os.close(fd)
+            v = data if data in ("sat", "unsat") else "unknown"
+            verdicts[label] = v
+            self.queries.append({"label": label, "verdict": v, "seconds": round(time.time() - t0, 3)})
+        if self.cross_check:
+            self._cross_check(items, verdicts)
+        return verdicts
+
+    def _cross_check(self, items, verdicts):
+        """second solver (cvc5) on the SMT-LIB2 export of each query; skipped for very large encodings"""
+        import concurrent.futures as cf
+        texts = []
+        for label, cond in items:
+            txt = self._smt2(cond)
+            if len(txt) > 40_000_000:
+                self.cross["skipped_too_large"] = self.cross.get("skipped_too_large", 0) + 1
+                continue
+            texts.append((label, txt))
         with cf.ThreadPoolExecutor(max_workers=max(1, self.jobs)) as ex:
-            futs = {ex.submit(_run_z3, txt, self.query_timeout_s): label for label, txt in texts}
+            futs = {ex.submit(_run_cvc5, txt, min(self.query_timeout_s, 300)): label for label, txt in texts}
             for fut in cf.as_completed(futs):
                 label = futs[fut]
                 v, dt = fut.result()
-                verdicts[label] = v
-                self.queries.append({"label": label, "verdict": v, "seconds": round(dt, 3)})
-            if self.cross_check:
-                futs = {ex.submit(_run_cvc5, txt, min(self.query_timeout_s, 300)): label for label, txt in texts}
-                for fut in cf.as_completed(futs):
-                    label = futs[fut]
-                    v, dt = fut.result()
-                    if v == "unknown":
-                        self.cross["cvc5_unknown"] += 1
-                    elif v == verdicts[label]:
-                        self.cross["agree"] += 1
-                    else:
-                        self.cross["disagree"] += 1
-        return verdicts
+                if v == "unknown":
+                    self.cross["cvc5_unknown"] += 1
+                elif v == verdicts[label]:
+                    self.cross["agree"] += 1
+                else:
+                    self.cross["disagree"] += 1
 
     def replay_of(self, model):
         rep = {}
@@ -183,8 +245,11 @@ class Session:
             kinds[label] = kind
             conds[label] = cond
             return label
+        reach = {}
         for g, label in vm.reached:
-            add(f"reach:{label}", g, "sat-required")
+            reach.setdefault(label, []).append(g)
+        for label, gs in reach.items():
+            add(f"reach:{label}", OR(*gs), "sat-required")
         unsup = {}
         for g, msg, where in vm.unsupported:
             unsup.setdefault((msg[:80], where[:120]), []).append(g)
@@ -200,10 +265,19 @@ class Session:
                 key = (type(exc).__name__, str(exc)[:200])
                 raised_groups.setdefault(key, ([], exc))[0].append(st.guard)
             elif st.status == "parked":
-                raise Inconclusive(f"{self.name}: state parked in sequential run")
+                if self.sched is None:
+                    raise Inconclusive(f"{self.name}: state parked in sequential run")
         for (tn, msg), (gs, exc) in raised_groups.items():
             lab = add(f"no-uncaught:{tn}:{msg[:60]}", OR(*gs), "check")
             exc_of[lab] = exc
+        if self.sched is not None:
+            dl = [g for k, g in self.sched.deadlocks]
+            if dl:
+                add("check:no deadlock (some thread unfinished, nobody enabled, no timed waiter)", OR(*dl), "check")
+            if self.sched.enabled_at_end is not FALSE:
+                add("unwinding:no thread is still enabled at the step bound", self.sched.enabled_at_end, "unsat-required")
+            allfin = AND(*[NOT(st.guard) for st in self.finals if st.status == "parked"])
+            add("reach:some schedule runs every thread to completion", allfin, "sat-required")
         for g, what, where in getattr(vm, "blocked", []):
             add(f"check:blocks forever: {what}", g, "check")
         for g, what, where in getattr(vm, "prim_violations", []):
@@ -216,7 +290,25 @@ class Session:
             if exclude is not None:
                 cond = AND(cond, exclude(label))
             add(f"check:{label}", cond, "check")
-        verdicts = self.solve_many(items)
+        # one combined query first: if no obligation at all is violated, a single unsat settles every check
+        checks = [(label, cond) for label, cond in items if kinds[label] in ("check", "unsat-required")]
+        pre = {}
+        if len(checks) > 3:
+            comb = OR(*[c for _, c in checks])
+            first = [("combined:any obligation violated?", comb)] + [(l, c) for l, c in items
+                                                                     if kinds[l] == "sat-required"]
+            pre = self.solve_many(first)
+            if pre.get("combined:any obligation violated?") == "unsat":
+                for label, _ in checks:
+                    pre[label] = "unsat"
+                self.combined_unsat = True
+                verdicts = pre
+            else:
+                rest = [(l, c) for l, c in items if l not in pre]
+                verdicts = dict(pre)
+                verdicts.update(self.solve_many(rest))
+        else:
+            verdicts = self.solve_many(items)
         if self.cross["disagree"]:
             raise Inconclusive(f"{self.name}: z3 and cvc5 disagree on {self.cross['disagree']} queries")
         results = []
@@ -250,8 +342,50 @@ class Session:
         return results
 
     # ----------------------------------------------------------------------------- native replay
+    def replay_vm(self, replay):
+        """Engine B: deterministic re-execution of the harness in the VM with the counterexample's inputs,
+        schedule and clock readings fixed; returns the labels that fail on that run"""
+        sess = Session(self.name + " (replay)", self.harness, self.args, encode=tuple(e for e in self.vm.encode
+                                                                                     if e != self.harness.__module__),
+                       steps=self.steps, racy=self.racy, jobs=1)
+        sess.vm.loop_bound = self.vm.loop_bound
+        sess.vm.forced = dict(replay)
+        try:
+            sess.build()
+        except Exception as e:
+            return {"failed": [], "error": f"replay build failed: {type(e).__name__}: {e}", "reached": []}
+        vm = sess.vm
+        vm.flush_defs()
+        failed = []
+
+        def holds(g):
+            if g is FALSE:
+                return False
+            sol = vm.solver
+            sol.push()
+            sol.add(to_z3(g))
+            r = sol.check()
+            sol.pop()
+            return r == z3.sat
+        if not holds(TRUE):
+            return {"failed": [], "error": "the schedule is not executable (a scheduled thread was not enabled)", "reached": []}
+        for g, label, where in vm.obligations:
+            if label not in failed and holds(g):
+                failed.append(label)
+        err = None
+        for st in sess.finals:
+            if st.status == "raised" and holds(st.guard):
+                err = f"uncaught {type(st.result).__name__}: {st.result}"
+        for k, g in sess.sched.deadlocks:
+            if holds(g):
+                failed.append("no deadlock (some thread unfinished, nobody enabled, no timed waiter)")
+                break
+        return {"failed": failed, "error": err, "reached": [l for g, l in vm.reached if holds(g)]}
+
     def replay_native(self, replay):
         """run the same harness natively with the inputs of a solver model; returns failed labels"""
+        if self.steps:
+            return self.replay_vm(replay)
         api.native_begin(replay)
         err = None
         import contextlib
@@ -326,7 +460,8 @@ def run_session_spec(spec):
                        use_solver=spec.get("use_solver", True), expected_exceptions=expected, setup=setup,
                        query_timeout_s=spec.get("query_timeout_s", 600), jobs=spec.get("jobs", 4),
                        cross_check=spec.get("cross_check", False),
-                       native_ctx=getattr(mod, spec["native_ctx"]) if spec.get("native_ctx") else None)
+                       native_ctx=getattr(mod, spec["native_ctx"]) if spec.get("native_ctx") else None,
+                       steps=spec.get("steps", 0), racy=tuple(spec.get("racy", ())))
         if spec.get("int_union_limit"):
             from . import values as _v
             _v.LIMITS["int_union"] = spec["int_union_limit"]
